@@ -597,3 +597,21 @@ Proof.
   assert (Hpos : (0 < wt / qn (count_true m))%Q) by (apply Qlt_shift_div_l; lra).
   exact (fixed_honoured l' i (wt / qn (count_true m))%Q w Hlen2 Hl'i Hpos Hsum Hdyn Hw).
 Qed.
+
+(** addTarget records the weight it is given: a weight that is not negative is the target's fixed weight
+    as it stands (a negative one means "no fixed weight") - the step in front of [weigh] *)
+Lemma add_records_given (ws : list Q) :
+  Forall (fun w => (0 <= w)%Q) ws -> map (clamp_fixed arithQ) ws = ws.
+Proof.
+  induction 1 as [|w ws Hw _ IH]; cbn [map]; [reflexivity|].
+  rewrite IH. f_equal. unfold clamp_fixed. cbn [a_lt a_zero arithQ].
+  destruct (Q_lt w 0) eqn:E; [|reflexivity].
+  exfalso. unfold Q_lt in E. apply Qle_bool_iff in Hw. rewrite Hw in E. discriminate E.
+Qed.
+
+Lemma add_negative_is_dynamic (w : Q) : (w < 0)%Q -> clamp_fixed arithQ w = 0%Q.
+Proof.
+  intros Hw. unfold clamp_fixed. cbn [a_lt a_zero arithQ]. unfold Q_lt.
+  destruct (Qle_bool 0 w) eqn:E; [|reflexivity].
+  apply Qle_bool_iff in E. exfalso. apply (Qlt_irrefl w). apply (Qlt_le_trans _ 0); assumption.
+Qed.
